@@ -24,3 +24,14 @@ Theorem C13_tokens_resolve : forall ops, Forall no_raw ops -> sizes_ok (run ops)
               (map (join_view (b_root (run ops))) (intended ops)).
 Proof. exact BuilderTokens.C13_tokens_resolve. Qed.
 Print Assumptions C13_tokens_resolve.
+
+(* the rule by which a source is read, in its declarative form (Spec/Rules.v, the oracle applied to the crate's answers):
+   unchanged when the root is absent or empty or the name is absolute, else root (minus one trailing '/') + "/" + name *)
+From SM Require Import Spec.Rules Proofs.RulesProofs.
+Theorem C13_join_rule : forall ops m m', cache_ok m -> apply_setters ops m = Ok m' ->
+  forall i, get_source m' i = option_map (spec_join (sm_root m')) (znth_opt (sm_sources m') i).
+Proof.
+  intros ops m m' Hc H i. destruct (SettersProofs.C13_map_inv ops m m' Hc H) as [_ G]. rewrite G.
+  destruct (znth_opt (sm_sources m') i); [cbn [option_map]; rewrite join_rule_spec|]; reflexivity.
+Qed.
+Print Assumptions C13_join_rule.
